@@ -60,7 +60,8 @@ class Rig:
         from aiohomekit.controller.ble.controller import BleController
 
         self.loop = vloop.VirtualLoop().install()
-        cache = CharacteristicCacheMemory()
+        cache = self.cache = CharacteristicCacheMemory()
+        self.floor = None  # state number carried by the accessory's latest regular advertisement (what a restart may not fall behind)
         cache.async_create_or_update_map(DEV_ID.upper(), 1, accessories(), KEY.hex(), last)
         self.controller = BleController(cache)
         self.pairing_data = {"Connection": "BLE", "AccessoryPairingID": DEV_ID.upper(), "AccessoryAddress": "00:11:22:33:44:55",
@@ -187,6 +188,34 @@ def step(rig: Rig, sym, arg=None):
         rig.model_last_b = g
         rig.neighbour_payloads.append((g, payload))
         return out, True
+    if sym == "restart":
+        # the process ends and a new one starts on the same characteristic cache: a new controller, the pairings loaded again, no discovery yet.
+        # Whatever the accessory's regular advertisement had already told the old process is not forgotten.
+        if rig.floor is None:
+            return [], False
+        from aiohomekit.controller.ble.controller import BleController
+
+        before = rig.state()
+        rig.controller = BleController(rig.cache)
+        rig.pairing = rig.controller.load_pairing("alias", rig.pairing_data)
+        rig.pairing.dispatcher_connect(lambda ev: rig.log.append(dict(ev)))
+        rig.pairing_b = rig.controller.load_pairing("neighbour", dict(rig.pairing_data, AccessoryPairingID=DEV_ID_B.upper(), AccessoryAddress="00:11:22:33:44:66"))
+        rig.pairing_b.dispatcher_connect(lambda ev: rig.log_b.append(dict(ev)))
+        rig.has_discovery = False
+        rig.n_restarts = getattr(rig, "n_restarts", 0) + 1
+        rig.loop.run_until_idle()
+        after = rig.state()
+        out = []
+        if len(rig.log) != before[1]:
+            out.append(("restart-reaches-listeners", {"before": before, "after": after}))
+        if after[0] is None or after[0] < rig.floor:
+            out.append(("restarted-pairing-falls-behind-the-state-number-of-the-last-regular-advertisement", {"tracked": after[0], "advertised": rig.floor, "last_accepted": rig.model_last}))
+        elif after[0] > rig.model_last:
+            out.append(("restarted-pairing-is-ahead-of-every-accepted-state-number", {"tracked": after[0], "last_accepted": rig.model_last}))
+        else:
+            rig.model_last = after[0]  # (the new process legitimately knows no more than what was made durable)
+        rig.floor = None
+        return out, True
     if sym in ("regular-adv", "reload-pairing"):
         if sym == "reload-pairing" and not rig.has_discovery:
             return [], False  # (a pairing re-loaded before the accessory's regular advertisement was ever seen starts from the cache: outside this property)
@@ -197,6 +226,7 @@ def step(rig: Rig, sym, arg=None):
 
             rig.feed(mfr_data(DEV_ID, gsn=max(rig.model_last, 1), cn=1))
             rig.has_discovery = True
+            rig.floor = max(rig.model_last, 1)
         else:
             # the application loads the pairing again on the same controller (reload, set-up retry): what was accepted stays accepted
             rig.pairing = rig.controller.load_pairing("alias", rig.pairing_data)
@@ -295,6 +325,12 @@ def disc_state(rig):
     return (getattr(d.description, "state_num", None), d.description is rig.pairing.description, _c.canon(rig.pairing, depth=1, skip=("controller", "_accessories_state", "pairing_data", "_pairing_data", "listeners", "availability_listeners", "config_changed_listeners", "device", "client", "description", "ble_advertisement", "_last_seen")))
 
 
+def durable(rig):
+    """what a new process would start from (the cached copy of the pairing's state): two histories that differ only here have different futures after a restart"""
+    st = getattr(rig.pairing, "_accessories_state", None)
+    return (getattr(st, "state_num", None), getattr(st, "config_num", None), getattr(st, "broadcast_key", None))
+
+
 def seen_iids(rig):
     """iids for which a broadcast was accepted so far (what a per-iid memo inside the pairing could hold): part of the canonical state"""
     return {k[1] for ev in rig.log for k in ev}
@@ -325,7 +361,7 @@ def _bfs(item, seed, tier):
                         acc.violation(sig, "history", {"base": base, "history": [list(x) for x in h2]}, detail)
                     acc.case(key=("h", base, h2), outcome="violation" if v else f"last={'moved' if rig.model_last != base else 'same'}", sample={"base": base, "history": [s for s, _ in h2]})
                     acc.traces += 1
-                    key = (rig.state()[0], rig.model_last, rig.state_b()[0], rig.model_last_b, len(rig.neighbour_payloads) > 0, rig.chars == CHARS, tuple(sorted(seen_iids(rig))), rig.has_discovery, id(rig.pairing) != rig.first_pairing_id, disc_state(rig))
+                    key = (rig.state()[0], rig.model_last, rig.state_b()[0], rig.model_last_b, len(rig.neighbour_payloads) > 0, rig.chars == CHARS, tuple(sorted(seen_iids(rig))), rig.has_discovery, id(rig.pairing) != rig.first_pairing_id, disc_state(rig), rig.floor, getattr(rig, "n_restarts", 0), durable(rig))
                     if v or key in seen:
                         continue
                     seen[key] = h2
@@ -361,7 +397,7 @@ def run(ctx):
     depth = 2 if quick else 5
     work = [(b, depth, SYMS) for b in bases]
     # deeper on the symbols that carry state across steps (database replacement, the neighbour pairing, per-characteristic history)
-    CARRY = ["+1", "+1:iid12", "+1:iid15", "db-swap", "neighbour:+1", "cross:from-neighbour", "same", "old:1", "unknown-iid", "regular-adv", "reload-pairing", "-1"]
+    CARRY = ["+1", "+1:iid12", "+1:iid15", "db-swap", "neighbour:+1", "cross:from-neighbour", "same", "old:1", "unknown-iid", "regular-adv", "reload-pairing", "restart", "-1"]
     work += [(b, 4 if quick else 6, CARRY) for b in ([300] if quick else [1, 300, 65500])]
     ctx.pmap(_bfs, work)
     flips = []
